@@ -24,6 +24,9 @@ Import ListNotations.
 Local Open Scope string_scope.
 
 Definition baseline : list access := [
+  (* solver._compact_tolerance: launched over opt_tolerance.shape[0]; a row-wise map of the batched
+     field into ctol (same leading size), which is then read at worldid % ctol.shape[0] *)
+  mkA "solver._compact_tolerance" "opt_tolerance" RBatch (ITid 0) ARead;
   (* collision_convex._hfield_filter *)
   mkA "collision_convex._hfield_filter" "geom_dataid" RBatch (IMod "geom_dataid" false) ARead;
   mkA "collision_convex._hfield_filter" "geom_xpos_in" RWorld (IParam "worldid") ARead;
